@@ -308,6 +308,9 @@ def macro_items(t):
                 out.append(None)
                 continue
             out.append({'k': k, 'p': [a, b, c, d, p4, p5], 'ints': [ilo, ihi], 'n': n, 'dir': dr})
+    # collection helpers of the builder (any / all / sum / min / max) over families of 0, 1, 2, 3 variables
+    for which, n, (a, b), (p4, p5), dr in itertools.product(('any', 'all', 'not_any', 'not_all'), (0, 1, 2, 3), [(-2.0, 3.0), (0.0, 4.0)], [(3.0, -1.5), (0.0, 0.0)], ('min', 'max')):
+        out.append({'k': 2, 'which': which, 'p': [a, b, 0.0, 1.0, p4, p5], 'ints': [0, 1], 'n': n, 'dir': dr})
     return [o for o in out if o]
 
 
@@ -320,6 +323,16 @@ def macro_text(it):
         return textgen.num_text(x)
     a, b, c, d, p4, p5 = it['p']
     ilo, ihi = it['ints']
+    if it['k'] == 2:
+        n = it['n']
+        rng = '0..%d' % n
+        logic = {'any': 'any(i in %s) { b_i }', 'all': 'all(i in %s) { b_i }', 'not_any': 'not any(i in %s) { b_i }', 'not_all': 'not all(i in %s) { b_i }'}[it['which']] % rng
+        rows = ['lg: ' + logic, 'sm: y >= sum(i in %s) { x_i } + %s' % (rng, nm(p5))]
+        if n >= 1:
+            rows += ['mx: y <= max(i in %s) { x_i } + %s' % (rng, nm(p4)), 'mn: y + 1 >= min(i in %s) { x_i }' % rng]
+        obj = 'y + sum(i in %s) { b_i }' % rng
+        dom = ['y as Real(0, 10)', 'b_i as Boolean for i in %s' % rng, 'x_i as Real(%s, %s) for i in %s' % (nm(a), nm(b), rng)]
+        return '%s %s\ns.t.\n    %s\ndefine\n    %s' % (it['dir'], obj, '\n    '.join(rows), '\n    '.join(dom))
     if it['k'] == 0:
         rows = ['c1: x + y <= %s' % nm(p4), 'y - z >= %s' % nm(p5), 'c3: w + u = %s' % nm(p4), 'w >= %s' % nm(p5), 'u <= %s' % nm(p4), 'a -> b', 'imp: a <-> b', 'a or b']
         obj = 'x + y + z + w + u + a + b'
